@@ -1,24 +1,33 @@
 #!/bin/bash
-# Runs every seeded change against the quick check of its property (and listed extras) in a scratch
-# worktree of /repo (VERIF_REPO), never touching /repo's working tree.  Output: seeded/RESULTS.tsv
+# Runs every seeded change (seeded/Cxx-mN/patch.diff) against the check of its property (and listed extras)
+# in a scratch worktree of /repo (VERIF_REPO), never touching /repo's working tree.
+# Output: seeded/RESULTS.tsv.   JOBS=<n> mutants in parallel (default 4), TIER=quick|thorough.
 HERE="$(cd "$(dirname "$0")/.." && pwd)"
 cd "$HERE"
-WT=/tmp/mm_wt_$$
 OUT=$HERE/seeded/RESULTS.tsv
-echo -e "mutant\tproperty\ttier\trc\tviolations\tfirst" > $OUT
-for d in seeded/C*-m*; do
-  id=$(basename $d); prop=${id%-*}
+TMP=$(mktemp -d /tmp/mm_XXXXXX)
+one() {
+  d=$1; id=$(basename $d); prop=${id%-*}
   extra=""
-  case $id in C05-m1) extra="C06";; C08-m1) extra="C19";; C10-m1) extra="C03";; C08-m2) extra="C13";; C15-m2) extra="C14";; esac
+  case $id in C05-m1) extra="C06";; C08-m1) extra="C19";; C10-m1) extra="C03";; C08-m2) extra="C13";; C15-m2) extra="C14";; C20-m3) extra="C11";; esac
+  WT=$TMP/wt_$id
+  git -C /repo worktree add -q --detach $WT HEAD || { echo -e "$id\t$prop\t-\tNA\t0\tworktree failed" > $TMP/$id.tsv; return; }
+  if ! git -C $WT apply $HERE/$d/patch.diff; then
+    echo -e "$id\t$prop\t-\tNA\t0\tpatch does not apply" > $TMP/$id.tsv
+  else
+    for p in $prop $extra; do
+      VERIF_REPO=$WT ./check $p --tier ${TIER:-quick} > $TMP/$id.$p.log 2>&1; rc=$?
+      n=$(grep -c '^VIOLATION' $TMP/$id.$p.log)
+      first=$(grep -m1 -A1 '^VIOLATION' $TMP/$id.$p.log | tail -1 | cut -c1-160 | tr '\t' ' ')
+      echo -e "$id\t$p\t${TIER:-quick}\t$rc\t$n\t$first" >> $TMP/$id.tsv
+    done
+  fi
   git -C /repo worktree remove --force $WT 2>/dev/null
-  git -C /repo worktree add -q --detach $WT HEAD || { echo "worktree failed"; exit 2; }
-  if ! git -C $WT apply $HERE/$d/patch.diff; then echo -e "$id\t$prop\t-\tNA\t0\tpatch does not apply" >> $OUT; continue; fi
-  for p in $prop $extra; do
-    VERIF_REPO=$WT VERIF_NOCACHE=1 ./check $p --tier ${TIER:-quick} > /tmp/mm_$$.log 2>&1; rc=$?
-    n=$(grep -c '^VIOLATION' /tmp/mm_$$.log)
-    first=$(grep -m1 -A1 '^VIOLATION' /tmp/mm_$$.log | tail -1 | cut -c1-160 | tr '\t' ' ')
-    echo -e "$id\t$p\t${TIER:-quick}\t$rc\t$n\t$first" >> $OUT
-  done
-done
-git -C /repo worktree remove --force $WT 2>/dev/null
-echo done
+  rm -rf "$HERE/.work/other-tree/$(echo $WT | sed 's#^/##; s#/#_#g')"
+}
+export -f one; export HERE TMP TIER
+ls -d seeded/C*-m* | xargs -P ${JOBS:-4} -I{} bash -c 'one {}'
+echo -e "mutant\tproperty\ttier\trc\tviolations\tfirst" > $OUT
+cat $TMP/*.tsv | sort >> $OUT
+rm -rf $TMP; git -C /repo worktree prune
+echo "caught: $(awk -F'\t' 'NR>1 && $4==1 {print $1}' $OUT | sort -u | wc -l) of $(ls -d seeded/C*-m* | wc -l)"
